@@ -3,8 +3,13 @@
   `getLineAndCol` (the byte-based model of `GetLineAndCol`, src/lexer.go:245-264) is characterised
   for EVERY offset; the positions the lexer attaches to errors and tokens lie inside the text it
   was given, and an "unexpected character" error sits exactly on the offending byte.
+  Section 5 (provenance): every position a run can report — syntax, lexical and runtime errors,
+  of the program or of a `-r` selector — is the offset of a token of the text it is reported
+  with (or of the offending byte of a lexical error); every token stored in a parsed AST carries
+  such an offset; with the exceptions exhibited there (EOF token, blank selector).
 -/
 import Jqawk.Lemmas.Lexer
+import Jqawk.Lemmas.ProvenanceDriver
 
 namespace Jqawk.C12
 open Jqawk LineColLemmas
@@ -324,5 +329,446 @@ theorem next_preserves_invariant (src : Bytes) (s : LexState) (t : Token) (s' : 
   congr 1; omega
 
 example : (LexState.init b!"ab").rest = (b!"ab").drop (LexState.init b!"ab").pos := rfl
+
+/-! ### 5. provenance: every reported position is the offset of a token of the text
+
+  Sections 1–4 say what line, column and quoted line belong to an offset, and that the lexer's
+  own errors and tokens carry the offset where they start.  This section settles where the
+  offsets of ALL reported errors come from: syntax errors raised by the parser, lexical errors
+  passed on by it, and runtime errors raised by the evaluator (in rule patterns and bodies, in
+  function bodies, in match arms, and in `-r` selector expressions).
+
+  `Prov.Lexed Rq src last s` are the lexer states reachable from the start of `src` by the two
+  requests the parser makes (`Next()`; `Regex()` when the tag of the last token satisfies `Rq`);
+  `Prov.IsTokenOf Rq src t` says that the lexer produced `t` in such a state.  For the parser of
+  src/parser.go `Rq = Prov.AfterSlash` (the rule table asks for `Regex()` only when the current
+  token is `/`, `tblRq_expected`); for an arbitrary table `Rq = fun _ => True`.
+  (`IsTokenOf` covers both readings of a `/` — division operator, or opening slash of a regex
+  literal when a closing slash follows — since which one the parser takes depends on the parse;
+  either way the token is written in the text where it says, `token_spelled`.) -/
+
+open Prov
+
+/-- `t` is a token of the text `src` (the lexer driven as the parser of the real rule table
+    drives it) -/
+abbrev IsToken (src : Bytes) (t : Token) : Prop := IsTokenOf AfterSlash src t
+
+/-- `p` is the offset carried by a token of the text `src` -/
+abbrev IsTokenStart (src : Bytes) (p : Nat) : Prop := TokenStart AfterSlash src p
+
+/-- `e` is a lexical error of the text `src` -/
+abbrev IsLexErr (src : Bytes) (e : SynErr) : Prop := IsLexErrOf AfterSlash src e
+
+/-- C12, tokens: **every token of a text is written in the text at the offset it carries**:
+    keywords and operators by their spelling, identifiers and numbers by their text, a string
+    between two equal quotes (the offset is that of the first byte after the opening quote), a
+    regex literal between two slashes (likewise). -/
+theorem token_spelled (src : Bytes) (t : Token) (h : IsToken src t) : SpelledIn src t :=
+  h.spelled
+
+/-- … so a token other than EOF starts strictly inside the text. -/
+theorem token_pos_in_text (src : Bytes) (t : Token) (h : IsToken src t) (hne : t.tag ≠ .eof) :
+    t.pos < src.length :=
+  h.spelled.pos_lt hne
+
+example : IsToken b!"  foo(1)" ⟨.ident, 2, b!"foo"⟩ :=
+  ⟨_, _, _, .init, .inl (by rfl)⟩
+example : SpelledIn b!"x ~ /a+/" ⟨.regex, 5, b!"a+"⟩ := by
+  show 1 ≤ 5 ∧ (b!"x ~ /a+/")[5 - 1]? = some 47 ∧ (47 : UInt8) ∉ b!"a+" ∧
+    ∃ rest, (b!"x ~ /a+/").drop 5 = b!"a+" ++ 47 :: rest
+  exact ⟨by decide, by decide, by decide, [], by decide⟩
+/-- a regex literal is a token of the text: `Next()` three times, then `Regex()` after the `/` -/
+example : IsToken b!"x ~ /a+/" ⟨.regex, 5, b!"a+"⟩ :=
+  ⟨⟨.divide, 4, []⟩, ⟨b!"a+/", 5, 4⟩, _,
+    .next (.next (.next .init (t := ⟨.ident, 0, b!"x"⟩) (s' := ⟨b!" ~ /a+/", 1, 0⟩) (by rfl))
+      (t := ⟨.tilde, 2, []⟩) (s' := ⟨b!" /a+/", 3, 2⟩) (by rfl)) (by rfl),
+    .inr ⟨rfl, by rfl⟩⟩
+
+/-- C12, FINDING (the EOF token is not where the text ends): the EOF token carries the offset
+    of the token produced before it — newline tokens included — because Go's `tokenStart` field
+    is not advanced at the end of the text; or 0 when the text holds no token at all.  So
+    "unexpected token EOF" and "expected …" errors at the end of the input point at the START of
+    the last token (or at the last line feed), not behind it. -/
+theorem eof_token_pos (src : Bytes) (t : Token) (h : IsToken src t) (he : t.tag = .eof) :
+    (∃ t', IsToken src t' ∧ t'.tag ≠ .eof ∧ t'.pos = t.pos ∧ SpelledIn src t') ∨
+    (t.pos = 0 ∧ NoToken src) := by
+  rcases h.eof_pos' he with ⟨t', h1, h2, h3⟩ | h
+  · exact .inl ⟨t', h1, h2, h3, h1.spelled⟩
+  · exact .inr h
+
+/-- … more precisely the offset carried by the token produced IMMEDIATELY before it (the last
+    token of the text when the lexer is driven to the end, as the parser does). -/
+theorem eof_token_pos_last (src : Bytes) (last : Token) (s : LexState) (t : Token) (s' : LexState)
+    (hl : Lexed AfterSlash src last s) (hn : Lexer.next s = .ok (t, s')) (he : t.tag = .eof) :
+    t.pos = last.pos := by
+  obtain ⟨ws, r, _, hc⟩ := next_spelled s t s' hn
+  rcases hc with ⟨_, rfl, _⟩ | ⟨_, hsp⟩
+  · exact hl.inv.ts
+  · rcases hsp with ⟨_, h2, _⟩ | ⟨h2, _⟩
+    · exact absurd he h2
+    · rw [h2] at he; cases he
+
+/-- witness: after `{ print 1 +` the error is reported at offset 10 (the `+`), not 11 -/
+example : (match parseProgramSrc expectedRuleTable b!"{ print 1 +" with
+    | .syntaxErr e => e.pos == 10 | _ => false) = true := by decide +kernel
+/-- witness: with trailing line feeds it is reported at the last line feed: line 3, column 0,
+    empty quoted line (Go prints the same) -/
+example : (match parseProgramSrc expectedRuleTable b!"{ print 1 +\n\n\n" with
+    | .syntaxErr e => e.pos == 13 && getLineAndCol b!"{ print 1 +\n\n\n" e.pos == ⟨[], 3, 0⟩
+    | _ => false) = true := by decide +kernel
+/-- witness: a selector of blanks only is rejected at offset 0, where a blank stands and no
+    token starts (Go: `-r '   '` prints the caret in column 0) -/
+example : (match parseExpressionSrc expectedRuleTable b!"   " with
+    | .syntaxErr e => e.pos == 0 | _ => false) = true := by decide +kernel
+example : NoToken b!"  # hi" := ⟨_, by rfl⟩
+
+/-- C12, token offsets: **what the offset of a token means**: a token other than EOF is written
+    there (strictly inside the text), or the offset is 0 and the text holds no token at all. -/
+theorem tokenStart_meaning (src : Bytes) (p : Nat) (h : IsTokenStart src p) :
+    (∃ t, IsToken src t ∧ t.tag ≠ .eof ∧ t.pos = p ∧ SpelledIn src t ∧ p < src.length) ∨
+    (p = 0 ∧ NoToken src) := by
+  rcases h.real' with ⟨t, h1, h2, rfl⟩ | h
+  · exact .inl ⟨t, h1, h2, rfl, h1.spelled, h1.spelled.pos_lt h2⟩
+  · exact .inr h
+
+/-- … in particular it lies in the text, so that sections 1 and 2 apply to it. -/
+theorem tokenStart_in_text (src : Bytes) (p : Nat) (h : IsTokenStart src p) : p ≤ src.length :=
+  h.le
+
+/-- C12, lexical errors reached by the parser: the offset lies in the text; it is the offset of
+    the illegal byte (`illegal_char_exact`), or the offset just behind the opening quote of a
+    string that is never closed (where the string token would start), or — for a regex literal
+    that is never closed — the offset of the `/` token before it. -/
+theorem lexical_error_pos (src : Bytes) (e : SynErr) (h : IsLexErr src e) :
+    e.pos ≤ src.length ∧
+    ((e.msg = "unexpected character" ∧ ∃ c, src[e.pos]? = some c) ∨
+     (e.msg = "unexpected EOF while reading string" ∧
+       ∃ q, (q = 39 ∨ q = 34) ∧ 1 ≤ e.pos ∧ src[e.pos - 1]? = some q ∧ q ∉ src.drop e.pos) ∨
+     (e.msg = "unexpected EOF while reading regex" ∧ IsTokenStart src e.pos)) := by
+  obtain ⟨h1, h2⟩ := h.pos
+  refine ⟨h1, ?_⟩
+  rcases h2 with h2 | h2 | ⟨hm, h2⟩
+  · exact .inl h2
+  · exact .inr (.inl h2)
+  · rcases h2 with h2 | ⟨_, hq⟩
+    · exact .inr (.inr ⟨hm, h2⟩)
+    · cases hq
+
+example : (match parseProgramSrc expectedRuleTable b!"BEGIN { x = 1 }\n   @" with
+    | .syntaxErr e => e.pos == 19 && getLineAndCol b!"BEGIN { x = 1 }\n   @" e.pos == ⟨b!"   @", 2, 3⟩
+    | _ => false) = true := by decide +kernel
+example : (match parseProgramSrc expectedRuleTable b!"{ print $ ~ /ab }" with
+    | .syntaxErr e => e.pos == 12 | _ => false) = true := by decide +kernel
+example : (match parseProgramSrc expectedRuleTable b!"{ print 'ab }" with
+    | .syntaxErr e => e.pos == 9 | _ => false) = true := by decide +kernel
+
+/-- C12, syntax errors (clause "the quoted line is exactly line N of the program text … the
+    reported column falls inside the offending construct"): where the reported offset comes from.
+    Named `_partial` with respect to the stronger statement first planned, "every syntax error
+    offset is the start of a token", which is false as it stands (the property itself does not
+    ask for it): **a syntax error of `Parse()` carries the offset of a token of the
+    program text, or it is a lexical error of that text** (which sits on the offending byte /
+    behind the opening quote, `lexical_error_pos`, not on a token start) — and a token offset
+    means what `tokenStart_meaning` says (at the end of the input: the START of the last token,
+    `eof_token_pos`).  For every rule table that asks for `Regex()` only at a `/` token. -/
+theorem syntax_error_pos_partial (tbl : RuleTable) (hT : TblRq AfterSlash tbl) (src : Bytes)
+    (e : SynErr) (h : parseProgramSrc tbl src = .syntaxErr e) :
+    IsTokenStart src e.pos ∨ IsLexErr src e := by
+  have := parseProgramSrc_prov AfterSlash true tbl hT src
+  rw [h] at this; exact this
+
+/-- non-vacuity of the two hypotheses on the table: the rule table of src/parser.go asks for
+    `Regex()` only at `/`, and has no prefix rule for EOF -/
+example : TblRq AfterSlash expectedRuleTable := tblRq_expected
+example : (lookupRule expectedRuleTable .eof).pre = none := by decide
+
+/-- … for the rule table of src/parser.go, unconditionally -/
+theorem syntax_error_pos_src (src : Bytes) (e : SynErr)
+    (h : parseProgramSrc expectedRuleTable src = .syntaxErr e) :
+    IsTokenStart src e.pos ∨ IsLexErr src e :=
+  syntax_error_pos_partial expectedRuleTable tblRq_expected src e h
+
+/-- C12, syntax errors, spelled out: **a syntax error of `Parse()` sits at an offset where a
+    token other than EOF is written in the program text** (strictly inside the text; at the end
+    of the input this is the last token, not the end) **or it is a lexical error** (on the
+    illegal byte / just behind the opening quote / on the `/` of an unclosed regex literal,
+    `lexical_error_pos`).  The "offset 0 of a text without tokens" case cannot occur here: such
+    a text is the empty program. -/
+theorem syntax_error_pos_meaning (tbl : RuleTable) (hT : TblRq AfterSlash tbl) (src : Bytes)
+    (e : SynErr) (h : parseProgramSrc tbl src = .syntaxErr e) :
+    (∃ t, IsToken src t ∧ t.tag ≠ .eof ∧ t.pos = e.pos ∧ SpelledIn src t ∧ e.pos < src.length) ∨
+    IsLexErr src e := by
+  rcases syntax_error_pos_partial tbl hT src e h with ht | hl
+  · rcases tokenStart_meaning src e.pos ht with hreal | ⟨_, hno⟩
+    · exact .inl hreal
+    · rw [parseProgramSrc_noToken tbl src hno] at h; cases h
+  · exact .inr hl
+
+/-- C12, syntax errors inside a `-r` selector: the same for `ParseExpression()` and the selector
+    text. -/
+theorem selector_syntax_error_pos_partial (tbl : RuleTable) (hT : TblRq AfterSlash tbl)
+    (sel : Bytes) (e : SynErr) (h : parseExpressionSrc tbl sel = .syntaxErr e) :
+    IsTokenStart sel e.pos ∨ IsLexErr sel e := by
+  have := parseExpressionSrc_prov AfterSlash true tbl hT sel
+  rw [h] at this; exact this
+
+/-- … spelled out; here the blank selector is the one exception (FINDING: `-r '   '` is rejected
+    at offset 0, where a blank stands) -/
+theorem selector_syntax_error_pos_meaning (tbl : RuleTable) (hT : TblRq AfterSlash tbl)
+    (sel : Bytes) (e : SynErr) (h : parseExpressionSrc tbl sel = .syntaxErr e) :
+    (∃ t, IsToken sel t ∧ t.tag ≠ .eof ∧ t.pos = e.pos ∧ SpelledIn sel t ∧ e.pos < sel.length) ∨
+    (e.pos = 0 ∧ NoToken sel) ∨ IsLexErr sel e := by
+  rcases selector_syntax_error_pos_partial tbl hT sel e h with ht | hl
+  · rcases tokenStart_meaning sel e.pos ht with hreal | hno
+    · exact .inl hreal
+    · exact .inr (.inl hno)
+  · exact .inr (.inr hl)
+
+/-- … and for ANY rule table (here a regex literal need not stand behind a `/`; every other
+    token is still spelled at its offset, `Prov.IsTokenOf.spelled_any`) -/
+theorem syntax_error_pos_any_table (tbl : RuleTable) (src : Bytes) (e : SynErr)
+    (h : parseProgramSrc tbl src = .syntaxErr e) :
+    TokenStart (fun _ => True) src e.pos ∨ IsLexErrOf (fun _ => True) src e := by
+  have := parseProgramSrc_prov (fun _ => True) true tbl (tblRq_true tbl) src
+  rw [h] at this; exact this
+
+theorem selector_syntax_error_pos_any_table (tbl : RuleTable) (sel : Bytes) (e : SynErr)
+    (h : parseExpressionSrc tbl sel = .syntaxErr e) :
+    TokenStart (fun _ => True) sel e.pos ∨ IsLexErrOf (fun _ => True) sel e := by
+  have := parseExpressionSrc_prov (fun _ => True) true tbl (tblRq_true tbl) sel
+  rw [h] at this; exact this
+
+/-- C12, syntax errors, the report: for every rule table and every text, the offset of a syntax
+    error lies in the text — hence (sections 1, 2) the reported line is 1 + the number of line
+    feeds before that byte, the column is the distance to the line start and the quoted line is
+    line N of the text without its line end. -/
+theorem syntax_error_report (tbl : RuleTable) (src : Bytes) (e : SynErr)
+    (h : parseProgramSrc tbl src = .syntaxErr e ∨ parseExpressionSrc tbl src = .syntaxErr e) :
+    e.pos ≤ src.length ∧
+    (splitLines src)[(getLineAndCol src e.pos).line - 1]? = some (getLineAndCol src e.pos).srcLine ∧
+    (getLineAndCol src e.pos).col ≤ (getLineAndCol src e.pos).srcLine.length := by
+  have hle : e.pos ≤ src.length := by
+    rcases h with h | h
+    · rcases syntax_error_pos_any_table tbl src e h with h | h
+      · exact h.le
+      · exact h.pos.1
+    · rcases selector_syntax_error_pos_any_table tbl src e h with h | h
+      · exact h.le
+      · exact h.pos.1
+  exact ⟨hle, srcLine_is_line_N src e.pos hle⟩
+
+/-- non-vacuity: an error on line 3 of a program with a comment line; an error on the last line
+    without a final line feed; an error behind a two-byte character (columns count bytes) -/
+example : (match parseProgramSrc expectedRuleTable b!"BEGIN { x = 1 }\n# c\n{ y = ) }" with
+    | .syntaxErr e => e.pos == 26 &&
+        getLineAndCol b!"BEGIN { x = 1 }\n# c\n{ y = ) }" e.pos == ⟨b!"{ y = ) }", 3, 6⟩
+    | _ => false) = true := by decide +kernel
+example : (match parseProgramSrc expectedRuleTable b!"{ print \"é\", 1 2 }" with
+    | .syntaxErr e => e.pos == 16 &&
+        getLineAndCol b!"{ print \"é\", 1 2 }" e.pos == ⟨b!"{ print \"é\", 1 2 }", 1, 16⟩
+    | _ => false) = true := by decide +kernel
+
+/-! #### the tokens stored in a parsed program -/
+
+/-- C12, AST: **every token stored in a parsed program carries the offset of a token of the
+    program text** — except the zero token of the implicit `print` of a body-less rule, which is
+    not a token of the text (the evaluator never takes a position from it, see
+    `parsed_blame_tokens`).  FINDING (harmless): only the OFFSETS are those of lexed tokens; the
+    parser rewrites `a op= b` into `a = a op b` with two made-up tokens at the offset of `op=`. -/
+theorem parsed_tokens_are_tokens (tbl : RuleTable) (hT : TblRq AfterSlash tbl) (src : Bytes)
+    (prog : Program) (h : parseProgramSrc tbl src = .ok prog) :
+    ∀ t ∈ prog.tokens, t = Token.zero ∨ IsTokenStart src t.pos := by
+  have := parseProgramSrc_prov AfterSlash true tbl hT src
+  rw [h] at this; exact this.all
+
+/-- witness for the zero token: a rule without body -/
+example : (match parseProgramSrc expectedRuleTable b!"  $.a > 1" with
+    | .ok p => p.tokens.contains Token.zero | _ => false) = true := by decide +kernel
+/-- witness for the rewritten compound assignment: the text has `+=` at offset 4, the AST an
+    `=` token and a `+` token at offset 4 -/
+example : (match parseProgramSrc expectedRuleTable b!"{ x += 1 }" with
+    | .ok p => p.tokens.contains ⟨.equal, 4, []⟩ && p.tokens.contains ⟨.plus, 4, []⟩
+    | _ => false) = true := by decide +kernel
+example : Lexer.next ⟨b!" += 1 }", 3, 2⟩ = .ok (⟨.plusEqual, 4, []⟩, ⟨b!" 1 }", 6, 4⟩) := by rfl
+
+/-- C12, AST: **every token the evaluator can take a position from** (all tokens of expression
+    nodes, the variables of `for … in`, function names; `Program.blameTokens`) **carries the
+    offset of a token of the program text.** -/
+theorem parsed_blame_tokens (tbl : RuleTable) (hT : TblRq AfterSlash tbl) (src : Bytes)
+    (prog : Program) (h : parseProgramSrc tbl src = .ok prog) :
+    ∀ t ∈ prog.blameTokens, IsTokenStart src t.pos := by
+  have := parseProgramSrc_prov AfterSlash false tbl hT src
+  rw [h] at this; exact this.blame
+
+/-- C12, AST of a selector: every token of a parsed selector expression carries the offset of a
+    token of the selector text. -/
+theorem selector_tokens_are_tokens (tbl : RuleTable) (hT : TblRq AfterSlash tbl) (sel : Bytes)
+    (expr : Expr) (h : parseExpressionSrc tbl sel = .ok expr) (kw : Bool) :
+    ∀ t ∈ expr.tokens kw, IsTokenStart sel t.pos := by
+  have := parseExpressionSrc_prov AfterSlash kw tbl hT sel
+  rw [h] at this; exact this
+
+example : (match parseProgramSrc expectedRuleTable
+      b!"function f(x) {\n  return x.a.b.c = 1\n}\n{ print f(1) }" with
+    | .ok p => p.blameTokens.length == 12 && p.tokens.length == 15 | _ => false) = true := by
+  decide +kernel
+
+/-! #### runtime errors -/
+
+/-- the position `pos`, reported together with the text `s`, is the offset stored in a token of
+    the AST parsed from that text: the program (then `s` is the program text) or a selector
+    expression (then `s` is that selector's text) -/
+def BlamesAst (tbl : RuleTable) (src : Bytes) (sels : List Bytes) (s : Bytes) (pos : Nat) : Prop :=
+  (s = src ∧ ∃ prog, parseProgramSrc tbl src = .ok prog ∧ ∃ t ∈ prog.blameTokens, t.pos = pos) ∨
+  (s ∈ sels ∧ ∃ expr, parseExpressionSrc tbl s = .ok expr ∧ ∃ t ∈ expr.tokens false, t.pos = pos)
+
+/-- the syntax error `e`, reported together with the text `s`, is the syntax error of parsing
+    that text: the program, or a selector -/
+def SynErrOf (tbl : RuleTable) (src : Bytes) (sels : List Bytes) (s : Bytes) (e : SynErr) : Prop :=
+  (s = src ∧ parseProgramSrc tbl src = .syntaxErr e) ∨
+  (s ∈ sels ∧ parseExpressionSrc tbl s = .syntaxErr e)
+
+/-- all positions a run reports, in one statement (any rule table, any selectors, any input) -/
+theorem run_positions (tbl : RuleTable) (src : Bytes) (sels : List Bytes) (files : List InputFile) :
+    OutcomeOK (BlamesAst tbl src sels) (SynErrOf tbl src sels) src sels
+      (evalProgram tbl src sels files).outcome := by
+  unfold evalProgram
+  cases hp : parseProgramSrc tbl src with
+  | syntaxErr e => exact ⟨.inl rfl, .inl ⟨rfl, hp⟩⟩
+  | oof => trivial
+  | ok prog =>
+    refine runProgram_ok prog ?_ ⟨?_, ?_⟩ files
+    · exact (progOK_self prog).mono (fun p ⟨t, ht, hpos⟩ => .inl ⟨rfl, prog, hp, t, ht, hpos⟩)
+    · intro sel hsel e he t ht
+      exact .inr ⟨hsel, e, he, t, ht, rfl⟩
+    · intro sel hsel e he
+      exact .inr ⟨hsel, he⟩
+
+/-- C12, runtime errors (clause "the reported column falls inside the offending construct": the
+    offset is that of a token of the faulting node): **the position of a runtime error a run reports is the offset stored in a token of
+    the parsed program — of a rule pattern, a rule body, a function body called from there, a
+    match arm — and the text reported with it is the program text; or it is the offset stored in
+    a token of a parsed `-r` selector expression and the text reported is that selector's text.**
+    Any rule table, any selectors, any input files, at the evaluator's full fuel. -/
+theorem runtime_error_pos_is_token (tbl : RuleTable) (src : Bytes) (sels : List Bytes)
+    (files : List InputFile) (s : Bytes) (pos : Nat) (msg : String)
+    (h : (evalProgram tbl src sels files).outcome = .runtimeErr s pos msg) :
+    BlamesAst tbl src sels s pos := by
+  have := run_positions tbl src sels files
+  rw [h] at this; exact this.2
+
+/-- C12, runtime errors, in terms of the text: **the position of a runtime error is the offset
+    carried by a token of the text it is reported with** (the program text, or the text of the
+    selector in which it was raised); hence it lies in that text. -/
+theorem runtime_error_pos_tokenStart (tbl : RuleTable) (hT : TblRq AfterSlash tbl) (src : Bytes)
+    (sels : List Bytes) (files : List InputFile) (s : Bytes) (pos : Nat) (msg : String)
+    (h : (evalProgram tbl src sels files).outcome = .runtimeErr s pos msg) :
+    (s = src ∨ s ∈ sels) ∧ IsTokenStart s pos := by
+  rcases runtime_error_pos_is_token tbl src sels files s pos msg h with
+    ⟨rfl, prog, hp, t, ht, rfl⟩ | ⟨hs, expr, he, t, ht, rfl⟩
+  · exact ⟨.inl rfl, parsed_blame_tokens tbl hT s prog hp t ht⟩
+  · exact ⟨.inr hs, selector_tokens_are_tokens tbl hT s expr he false t ht⟩
+
+/-- C12, runtime errors, full strength: **at the position of a runtime error a token other than
+    EOF is written in the text the error is reported with** (`SpelledIn`: its spelling stands
+    there; for a string or regex literal the position is that of the first byte after the
+    opening delimiter), and the position lies strictly inside that text.  The "offset 0 of a
+    text without tokens" case of `tokenStart_meaning` cannot occur: such a program has no rules
+    and such a selector does not parse.  For tables that ask for `Regex()` only at `/` and have
+    no prefix rule for EOF — as the real one. -/
+theorem runtime_error_pos_real (tbl : RuleTable) (hT : TblRq AfterSlash tbl)
+    (hE : (lookupRule tbl .eof).pre = none) (src : Bytes)
+    (sels : List Bytes) (files : List InputFile) (s : Bytes) (pos : Nat) (msg : String)
+    (h : (evalProgram tbl src sels files).outcome = .runtimeErr s pos msg) :
+    (s = src ∨ s ∈ sels) ∧
+    ∃ t, IsToken s t ∧ t.tag ≠ .eof ∧ t.pos = pos ∧ SpelledIn s t ∧ pos < s.length := by
+  obtain ⟨hs, hts⟩ := runtime_error_pos_tokenStart tbl hT src sels files s pos msg h
+  refine ⟨hs, ?_⟩
+  rcases tokenStart_meaning s pos hts with hreal | ⟨_, hno⟩
+  · exact hreal
+  · exfalso
+    rcases runtime_error_pos_is_token tbl src sels files s pos msg h with
+      ⟨rfl, prog, hp, t, ht, _⟩ | ⟨_, expr, he, _⟩
+    · rw [parseProgramSrc_noToken tbl s hno] at hp
+      cases hp
+      simp [Program.blameTokens] at ht
+    · obtain ⟨e, he'⟩ := parseExpressionSrc_noToken tbl hE s hno
+      rw [he'] at he; cases he
+
+/-- … for the rule table of src/parser.go, unconditionally -/
+theorem runtime_error_pos_src (src : Bytes) (sels : List Bytes) (files : List InputFile)
+    (s : Bytes) (pos : Nat) (msg : String)
+    (h : (evalProgram expectedRuleTable src sels files).outcome = .runtimeErr s pos msg) :
+    (s = src ∨ s ∈ sels) ∧
+    ∃ t, IsToken s t ∧ t.tag ≠ .eof ∧ t.pos = pos ∧ SpelledIn s t ∧ pos < s.length :=
+  runtime_error_pos_real expectedRuleTable tblRq_expected (by decide) src sels files s pos msg h
+
+/-- C12, syntax errors of a run: the syntax error a run reports is the one of parsing the
+    program text or one of the selector texts, and it is reported with that text; so
+    `syntax_error_pos_partial` / `selector_syntax_error_pos_partial` apply to it. -/
+theorem run_syntax_error (tbl : RuleTable) (src : Bytes) (sels : List Bytes)
+    (files : List InputFile) (s : Bytes) (e : SynErr)
+    (h : (evalProgram tbl src sels files).outcome = .syntaxErr s e) : SynErrOf tbl src sels s e := by
+  have := run_positions tbl src sels files
+  rw [h] at this; exact this.2
+
+/-- C12, the report of a run: **whatever error a run reports — syntax, lexical or runtime, of
+    the program or of a selector, for any rule table — its offset lies in the text it is
+    reported with; the quoted line is line N of that text and the column lies within it.** -/
+theorem reported_position_in_text (tbl : RuleTable) (src : Bytes) (sels : List Bytes)
+    (files : List InputFile) (s : Bytes) (pos : Nat)
+    (h : (∃ msg, (evalProgram tbl src sels files).outcome = .runtimeErr s pos msg) ∨
+         (∃ e, (evalProgram tbl src sels files).outcome = .syntaxErr s e ∧ e.pos = pos)) :
+    pos ≤ s.length ∧
+    (splitLines s)[(getLineAndCol s pos).line - 1]? = some (getLineAndCol s pos).srcLine ∧
+    (getLineAndCol s pos).col ≤ (getLineAndCol s pos).srcLine.length := by
+  have hle : pos ≤ s.length := by
+    rcases h with ⟨msg, h⟩ | ⟨e, h, rfl⟩
+    · rcases runtime_error_pos_is_token tbl src sels files s pos msg h with
+        ⟨rfl, prog, hp, t, ht, rfl⟩ | ⟨hs, expr, he, t, ht, rfl⟩
+      · have := parseProgramSrc_prov (fun _ => True) false tbl (tblRq_true tbl) s
+        rw [hp] at this
+        exact (this.blame t ht).le
+      · have := parseExpressionSrc_prov (fun _ => True) false tbl (tblRq_true tbl) s
+        rw [he] at this
+        exact (this t ht).le
+    · rcases run_syntax_error tbl src sels files s e h with ⟨rfl, hp⟩ | ⟨_, hp⟩
+      · exact (syntax_error_report tbl s e (.inl hp)).1
+      · exact (syntax_error_report tbl s e (.inr hp)).1
+  exact ⟨hle, srcLine_is_line_N s pos hle⟩
+
+/-- non-vacuity: a runtime error inside a function called from a rule, on line 2 of a
+    four-line program: offset 25, the `x` of `x.a.b.c = 1` (Go prints the same line and caret) -/
+example : (match (evalProgram expectedRuleTable
+      b!"function f(x) {\n  return x.a.b.c = 1\n}\n{ print f(1) }" [] [⟨b!"f", b!"1", .eof⟩]).outcome with
+    | .runtimeErr s pos _ =>
+      s == b!"function f(x) {\n  return x.a.b.c = 1\n}\n{ print f(1) }" && pos == 25 &&
+      getLineAndCol s pos == ⟨b!"  return x.a.b.c = 1", 2, 9⟩
+    | _ => false) = true := by decide +kernel
+
+/-- non-vacuity: a runtime error behind a two-byte character; the column counts bytes -/
+example : (match (evalProgram expectedRuleTable b!"{ y = \"é\" + $.a.q.z(1) }" []
+      [⟨b!"f", b!"{\"a\":1}", .eof⟩]).outcome with
+    | .runtimeErr s pos _ => pos == 13 && (getLineAndCol s pos).col == 13 && s[13]? == some 36
+    | _ => false) = true := by decide +kernel
+
+/-- non-vacuity: a runtime error on the last line, which has no final line feed; the position
+    is that of the rewritten `+=` (`x += 1 / 0` → the `/`) -/
+example : (match (evalProgram expectedRuleTable b!"BEGIN { x = 1 }\n\n{ x += 1 / 0 }" []
+      [⟨b!"f", b!"{\"a\":1}", .eof⟩]).outcome with
+    | .runtimeErr s pos _ => pos == 26 && getLineAndCol s pos == ⟨b!"{ x += 1 / 0 }", 3, 9⟩
+    | _ => false) = true := by decide +kernel
+
+/-- non-vacuity: a runtime error inside a `-r` selector is reported with the selector text and
+    an offset into it … -/
+example : (match (evalProgram expectedRuleTable b!"{ print }" [b!"  $.a ~ 1"]
+      [⟨b!"f", b!"{\"a\":1}", .eof⟩]).outcome with
+    | .runtimeErr s pos _ => s == b!"  $.a ~ 1" && pos == 8 | _ => false) = true := by
+  decide +kernel
+/-- … and so is a syntax error inside a selector (at the start of its last token) -/
+example : (match (evalProgram expectedRuleTable b!"{ print }" [b!"$.a +"]
+      [⟨b!"f", b!"{\"a\":1}", .eof⟩]).outcome with
+    | .syntaxErr s e => s == b!"$.a +" && e.pos == 4 | _ => false) = true := by
+  decide +kernel
 
 end Jqawk.C12
